@@ -33,6 +33,10 @@ type rThread struct {
 	mu     unsafe.Pointer // ptMuLock: the mutex about to be acquired
 	muRW   bool
 	muW    bool
+	// announced: the thread waits for an exclusive acquisition and has, in this schedule,
+	// already made its Lock() call: like a pending writer of a sync.RWMutex it holds new
+	// readers of that lock back until it got the lock (writer preference)
+	announced bool
 	done   bool
 	panicV any
 	body   func()
@@ -52,9 +56,11 @@ type rSim struct {
 	ilv      hash64
 	last     *rThread
 	hits     [ptMax]int
-	hung     bool
-	dead     bool
+	hung      bool
+	hungAlone bool // ... and no other thread could have run
+	dead      bool
 	desc     string
+	announces int
 	muMuted  bool // mutex points do not yield in this run unless the mutex is held (buggify)
 }
 
@@ -183,19 +189,61 @@ func (s *rSim) spawn(name string, body func()) {
 	}()
 }
 
+// lockOf names the lock a parked thread is about to acquire (nil if it is not parked in
+// front of one) and whether the acquisition is exclusive.
+//
+//go:norace
+func (t *rThread) lockOf() (key unsafe.Pointer, write bool) {
+	switch t.kind {
+	case uint8(column.SimBeforeRLock):
+		return unsafe.Add(unsafe.Pointer(t.latch), uintptr(t.arg%128)*64), false
+	case uint8(column.SimBeforeLock):
+		return unsafe.Add(unsafe.Pointer(t.latch), uintptr(t.arg%128)*64), true
+	case ptMuLock:
+		if t.muRW {
+			return t.mu, t.muW
+		}
+	}
+	return nil, false
+}
+
 //go:norace
 func (s *rSim) enabled(t *rThread) bool {
+	ok := true
 	switch t.kind {
 	case uint8(column.SimBeforeRLock):
 		_, w := latchState(t.latch, t.arg)
-		return !w
+		ok = !w
 	case uint8(column.SimBeforeLock):
 		r, w := latchState(t.latch, t.arg)
-		return !w && r == 0
+		ok = !w && r == 0
 	case ptMuLock:
-		return muFree(t.mu, t.muRW, t.muW)
+		ok = muFree(t.mu, t.muRW, t.muW)
 	}
-	return true
+	if key, write := t.lockOf(); ok && key != nil && !write {
+		// a shared acquisition waits behind a writer that has announced itself on the same lock
+		for _, o := range s.threads {
+			if o != t && !o.done && o.announced {
+				if ok2, _ := o.lockOf(); ok2 == key {
+					return false
+				}
+			}
+		}
+	}
+	return ok
+}
+
+// announceable reports whether the thread waits for an exclusive acquisition of a
+// reader/writer lock that only readers hold right now and has not announced itself yet.
+//
+//go:norace
+func (s *rSim) announceable(t *rThread) bool {
+	key, write := t.lockOf()
+	if key == nil || !write || t.announced {
+		return false
+	}
+	readers, writer := rwState(key)
+	return readers > 0 && !writer
 }
 
 // run schedules the threads until all have finished; it returns false on deadlock or hang.
@@ -223,7 +271,20 @@ func (s *rSim) run() {
 			s.desc = s.describe()
 			return
 		}
+		// writer preference of the reader/writer locks: a thread that waits for an exclusive
+		// acquisition while readers hold the lock may, as a scheduling step of its own, announce
+		// itself (in reality: its Lock() call has started); from then on new readers of that lock
+		// wait behind it. Recorded in the schedule as a negative entry.
+		if a := s.pickAnnounce(); a != nil {
+			a.announced = true
+			s.announces++
+			s.sched = append(s.sched, int16(-1-a.id))
+			s.steps++
+			s.trace = s.trace.add(uint64(a.id)<<40 | uint64(0xff)<<32)
+			continue
+		}
 		t := s.pick(en)
+		t.announced = false
 		s.sched = append(s.sched, int16(t.id))
 		s.steps++
 		s.trace = s.trace.add(uint64(t.id)<<40 | uint64(t.kind)<<32 | uint64(t.arg))
@@ -236,6 +297,16 @@ func (s *rSim) run() {
 		rawWrite(t.wfd)
 		if !rawPoll(s.sr, 20000) {
 			s.hung = true
+			// a released thread that blocks although its acquisition was seen as free waits for a
+			// lock that is not a scheduling point (a dependency's internal lock) held by a parked
+			// thread: if some other thread could run, the wait is an artefact of running one
+			// thread at a time, not a deadlock
+			s.hungAlone = true
+			for _, o := range s.threads {
+				if o != t && !o.done && s.enabled(o) {
+					s.hungAlone = false
+				}
+			}
 			s.desc = fmt.Sprintf("thread %s released at %s/%d did not yield within 20s", t.name, pointName[t.kind], t.arg)
 			return
 		}
@@ -251,12 +322,42 @@ func (s *rSim) run() {
 	}
 }
 
+// pickAnnounce decides whether this step is an announcement, and whose.
+//
+//go:norace
+func (s *rSim) pickAnnounce() *rThread {
+	step := s.steps
+	if step < len(s.replay) {
+		if e := int(s.replay[step]); e < 0 {
+			for _, t := range s.threads {
+				if t.id == -1-e && !t.done && s.announceable(t) {
+					return t
+				}
+			}
+		}
+		return nil
+	}
+	if s.replay != nil || s.strategy == "drain" {
+		return nil
+	}
+	var an []*rThread
+	for _, t := range s.threads {
+		if !t.done && s.announceable(t) {
+			an = append(an, t)
+		}
+	}
+	if len(an) == 0 || !s.rng.Chance(0.5) {
+		return nil
+	}
+	return an[s.rng.Intn(len(an))]
+}
+
 //go:norace
 func (s *rSim) describe() string {
 	var b strings.Builder
 	for _, t := range s.threads {
 		if !t.done {
-			fmt.Fprintf(&b, "[%s at %s/%d] ", t.name, pointName[t.kind], t.arg)
+			fmt.Fprintf(&b, "[%s at %s/%d announced=%v] ", t.name, pointName[t.kind], t.arg, t.announced)
 		}
 	}
 	return b.String()
@@ -493,6 +594,9 @@ func runRace(cs *Case) (w *World) {
 			w.stats.Hooks[pointName[uint8(k)]] += n
 		}
 	}
+	for i := 0; i < s.announces; i++ {
+		w.stats.fault("writer-announced-before-readers-drained")
+	}
 	w.raceSched = s.sched
 	for _, t := range s.threads {
 		if t.panicV != nil {
@@ -511,7 +615,7 @@ func runRace(cs *Case) (w *World) {
 		buf := make([]byte, 1<<20)
 		dump := string(buf[:runtime.Stack(buf, true)])
 		inLock := strings.Contains(dump, "sync.(*RWMutex).") || strings.Contains(dump, "sync.(*Mutex).")
-		if inLock {
+		if inLock && s.hungAlone {
 			w.fail(violation("hang-in-lock", "%s (blocked inside package sync)", s.desc))
 		} else {
 			w.incon = "hang"
